@@ -68,7 +68,7 @@ PROPS = {
         "monitors": ["C09"],
         "assumptions": ["polls are atomic, so the inner mutex is free between operations (the differential run checks the mutex word and lock_ops stay 0) and the slow path of the embedded lock is not exercised",
                         "generation_id wrap-around (2^64 generations) is outside the model"],
-        "partial": ["thread interleavings; wait_blocking on parked threads"],
+        "partial": ["thread interleavings; wait_blocking is covered by C09_blocking_is_poll (resume path = poll of a notified future), the park/unpark itself is not modelled"],
     },
     "C04": {
         "atomics": True,
@@ -87,8 +87,8 @@ PROPS = {
         "prims": ["once"],
         "fields": ["out", "w", "words", "ev", "val", "at"],
         "monitors": ["C08"],
-        "assumptions": ["polls are atomic; initialiser futures are scripted; blocking forms are not in the model"],
-        "partial": ["thread interleavings; threads parked in blocking forms"],
+        "assumptions": ["polls are atomic; initialiser futures are scripted; blocking forms enter through C08_blocking_*_is_poll (resume path = poll of a notified future)"],
+        "partial": ["thread interleavings; the park/unpark of the blocking forms itself is not modelled"],
     },
     "C02": {
         "atomics": True,
